@@ -188,6 +188,19 @@ def run(ck: core.Check):
             small = shrink_history(c["prog"], c["hist"][: step + 1] if 0 <= step < len(c["hist"]) else c["hist"], c["ref"], key)
             ck.failure(key, what, {"mode": "history", "prog": c["prog"], "hist": small, "ref": c["ref"]})
 
+    # ---- oracle: look-alike programs built, freed and built again (results keyed by object identity go stale)
+    n_fam = ck.pick(40, 300)
+    fams = 0
+    for _ in range(n_fam):
+        fam = lh.gen_reuse_family(rng, rng.randrange(4, 9))
+        if fam is None:
+            continue
+        fams += 1
+        ck.count(("fam", json.dumps([lf.to_objs(p) for p in fam["progs"]])))
+        for key, what in lh.run_reuse_family(fam):
+            ck.failure(key, what, {"mode": "reuse", "family": fam})
+    stats["reuse_families"] = fams
+
     # ---- oracle: the same reference requests in fresh interpreters, several hash seeds / allocation patterns
     hashseeds = list(range(ck.pick(6, 32)))
     sub = [c for c in hcases if c["ref"] is not None][: ck.pick(150, 600)]
@@ -214,12 +227,15 @@ def run(ck: core.Check):
                        {"mode": "fresh", "prog": fc["prog"], "hist": fc["hist"], "ref": fc["ref"], "hashseeds": hashseeds, "salt": fc["salt"]})
         elif j < len(sub):
             # compare with the long-lived process after its history
-            mine = inproc[idx_of[id(sub[j])]]["ref_after"]
+            k_ = idx_of[id(sub[j])]
+            mine = inproc[k_]["ref_after"]
             theirs = next(iter(shas.values()))
             if mine != theirs:
+                prelude = [{"prog": c_["prog"], "hist": c_["hist"], "ref": c_["ref"]} for c_ in hcases[max(0, k_ - 2): k_]]
                 ck.failure("bytes:history-dependent",
                            f"reference request: {theirs} in a fresh process, {mine} after a history in a long-lived process",
-                           {"mode": "fresh-vs-history", "prog": fc["prog"], "hist": sub[j]["hist"], "ref": fc["ref"], "hashseeds": hashseeds[:3], "salt": fc["salt"]})
+                           {"mode": "fresh-vs-history", "prog": fc["prog"], "hist": sub[j]["hist"], "ref": fc["ref"],
+                            "hashseeds": hashseeds[:3], "salt": fc["salt"], "prelude": prelude})
         stats["refs"] += 1
     ck.cov.update({
         "histories": len(hcases),
@@ -253,6 +269,13 @@ def replay(ck: core.Check, doc) -> bool:
         for key, what in bad:
             print(f"{key}: {what}")
         return bool(bad)
+    if mode == "reuse":
+        bad = lh.run_reuse_family(case["family"])
+        for key, what in bad:
+            print(f"{key}: {what}")
+        return bool(bad)
+    for pre in case.get("prelude", []):
+        lh.run_case(pre["prog"], pre["hist"], pre["ref"])
     prog, hist, ref = case["prog"], case.get("hist", []), case.get("ref")
     r = lh.run_case(prog, hist, ref)
     for key, what, _ in r["violations"]:
